@@ -306,6 +306,10 @@ def r1_template(ctx, chk, rule="C11.1"):
             chk.undecided(rule, f.where(), "written piece `%s` not recognised" % show(t)[:80])
             return None
     text = "".join(skeleton)
+    if not game_terms:
+        # nothing recognised as a written game: the writer has another shape (a serialiser of its own, writelines, ...)
+        chk.undecided(rule, f.where(), "no written piece was recognised as a game (skeleton `%s`): the writer is not in a recognised form" % text.replace("\n", "\\n")[:60])
+        return None
     try:
         tree = ast.parse(text.strip(), mode="eval")
     except SyntaxError as e:
@@ -544,7 +548,7 @@ def r4_reader(ctx, chk, rule="C11.4"):
                       found=show(arg)[:160], construct="read_dict_from_file eval argument")
     raises = [e for e in sx.final.effects if e[1] == "raise"]
     want = simp(("not", ("call", "isinstance", (evals[0], ("v", "dict")), ())))
-    good = [e for e in raises if e[0] == want and e[2][0] == "call" and e[2][1] == "ValueError"]
+    good = [e for e in raises if e[0] == want and e[2][0] == "call" and ctx.prog.exc_is_a(e[2][1], "ValueError")]
     if good:
         chk.ok(rule, f.where(), "non-dict content => ValueError")
     else:
